@@ -2,9 +2,11 @@ package netmc
 
 import (
 	"bytes"
+	"time"
 
 	"github.com/go-logr/logr"
 
+	"go.minekube.com/gate/pkg/edition/java/proto/packet"
 	"go.minekube.com/gate/pkg/edition/java/proto/state"
 	"go.minekube.com/gate/pkg/gate/proto"
 	zz "go.minekube.com/gate/pkg/internal/zzverif"
@@ -130,4 +132,61 @@ func VerifHarness_ConcurrentRelayOnOneConnection() {
 	ok21 := bytes.Equal(frames[0], p2) && bytes.Equal(frames[1], p1)
 	zz.Assert(ok12 || ok21, "a payload reached the peer changed (frames of two writers interleaved)")
 	zz.Reach("concurrent-relay")
+}
+
+// zzStreamConn is a connection whose peer has sent a fixed byte stream and then closed.
+type zzStreamConn struct {
+	zzNetConn
+	rd *bytes.Reader
+}
+
+func (c *zzStreamConn) Read(p []byte) (int, error)      { return c.rd.Read(p) }
+func (c *zzStreamConn) SetReadDeadline(time.Time) error { return nil }
+
+// The real packet reader of a connection (netmc.reader over the real Decoder, no compression): every
+// frame the peer sends during play - unknown ids, and a known pass-through type with or without bytes
+// behind the fields its decoder reads - is handed to the session handler once, with the payload as it
+// came in, in the order it came in. "Retry" results are followed as the read loop follows them.
+func VerifHarness_ReaderDeliversEveryFrame() {
+	zz.MaxLen(12)
+	dir := proto.ClientBound
+	if zz.Bool() {
+		dir = proto.ServerBound
+	}
+	kaID, ok := state.FromDirection(dir, state.Play, 767).PacketID(&packet.KeepAlive{})
+	zz.Assert(ok, "keep-alive is not registered")
+	n := 1 + zz.Choose(3)
+	var stream bytes.Buffer
+	var sent [][]byte
+	for i := 0; i < n; i++ {
+		var payload []byte
+		if zz.Bool() {
+			payload = append([]byte{0x7e}, zz.Bytes(1+zz.Choose(2))...) // an id no version registers
+		} else {
+			payload = append([]byte{byte(kaID)}, zz.Bytes(8+zz.Choose(3))...) // keep-alive, 0..2 bytes behind its long
+		}
+		stream.WriteByte(byte(len(payload)))
+		stream.Write(payload)
+		sent = append(sent, payload)
+	}
+	rd := NewReader(&zzStreamConn{rd: bytes.NewReader(stream.Bytes())}, dir, time.Second, logr.Discard())
+	rd.SetState(state.Play)
+	rd.SetProtocol(767)
+	var got [][]byte
+	for tries := 0; tries < 8; tries++ {
+		ctx, err := rd.ReadPacket()
+		if err == ErrReadPacketRetry {
+			continue
+		}
+		if err != nil {
+			break
+		}
+		zz.Assert(ctx != nil, "the reader returned neither a packet nor an error")
+		got = append(got, append([]byte(nil), ctx.Payload...))
+	}
+	zz.Assert(len(got) == len(sent), "a frame the peer sent was not handed to the session handler (or one was handed over twice)")
+	for i := range sent {
+		zz.Assert(bytes.Equal(got[i], sent[i]), "a frame reached the session handler with another payload, or out of order")
+	}
+	zz.Reach("reader-frames")
 }
